@@ -448,6 +448,8 @@ class Gen:
         scn = self.slot()
         thr = r.choice([None, F(0.0), F(-5.0), F(2.0), F(5.0), F(-50.0), F(-1000.0), I(1), F(round(r.uniform(-8, 8), 2))])
         bs = r.choice([None, I(1), I(2), I(3), I(7), I(16), I(256), I(5), I(1000), T_])
+        if self.chance(0.04):      # the largest block sizes a usize can hold (row + block_size must not wrap)
+            bs = I(r.choice([2 ** 64 - 1, 2 ** 63, 2 ** 64 - 256, 2 ** 32]))
         self.emit(r.choice(["sn", "sn", "sc"]), scn, ("V", s), ("V", q), thr, bs)
         self.emit("nx", scn, r.choice([0, 1, 2, 3, 5]))
         if self.chance(0.7):
